@@ -58,6 +58,15 @@ def refine_args(opt: str, a: float, b: float) -> dict:
 def gen_grid_c05(rng: random.Random, fam: str) -> dict:
     """grids for the recovery claim: Cartesian grids are NON-SQUARE (cell counts differ by a factor >= 1.8 between axes,
     in random axis order), with every periodicity mask and mildly anisotropic spacing"""
+    if fam == "cylindrical" and rng.random() < 0.4:
+        # narrow, finely sliced cylinders: a droplet is then LONGER in z-cells than the grid has radial cells
+        # (seeded change C05-3 compared the z-extent of a cluster with the number of radial cells)
+        nr, nz = rng.randint(9, 11), rng.randint(36, 48)
+        h = rng.choice([0.5, 1.0, 0.75, 1.25])
+        hz = h * rng.choice([0.5, 0.625, 0.75])
+        z0 = rc.dy(rng, -4, 4)
+        return {"family": "cylindrical", "radius": nr * h, "bounds_z": [z0, z0 + nz * hz], "shape": [nr, nz],
+                "periodic_z": rng.random() < 0.7}
     if not fam.startswith("cart") or fam == "cart1":
         return rc.gen_grid(rng, fam, big=True)
     d = int(fam[4])
